@@ -736,7 +736,7 @@ func stages(thorough bool) []stage {
 		{sub: "coreB2", p: coreB2(), b: -1, read: true},
 		{sub: "coreT", p: coreT(), b: -1, read: true},
 		{sub: "coreC1", p: coreC1(), b: -1, read: true, styleVar: true},
-		{sub: "coreC2", p: coreC2(), b: -1, read: true},
+		{sub: "coreC2", p: coreC2(), b: -1, read: true, styleVar: true},
 		{sub: "coreW", p: coreW(thorough), b: -1},
 		{sub: "coreS", p: coreS(), b: -1, read: true, styleVar: true},
 		{sub: "coreR1", p: coreR1(), b: -1, read: true, styleVar: true},
@@ -750,7 +750,7 @@ func stages(thorough bool) []stage {
 		{sub: "coreT2", p: coreT2(), b: -1, read: true},
 		{sub: "coreT3", p: coreT3(), b: -1, read: true},
 		{sub: "coreM", p: coreM(), b: -1, read: true},
-		{sub: "coreC3", p: coreC3(), b: -1, read: true},
+		{sub: "coreC3", p: coreC3(), b: -1, read: true, styleVar: true},
 		{sub: "many", b: -1, read: true, gen: genMany},
 		{sub: "deep", b: -1, read: true, gen: genDeep},
 		{sub: "ball", p: fullProfile(thorough), b: bound, read: true},
